@@ -11,5 +11,7 @@ CONSTANTS
   DevSortBreakStops = FALSE
   DevSortEmptyNoComplete = FALSE
   DevSpaceCountsKeyless = FALSE
+  Files = 2
+  DevBreakEndsFileOnly = FALSE
 CHECK_DEADLOCK FALSE
 PROPERTY Terminates
